@@ -166,6 +166,9 @@ pub struct EnfWorld {
 }
 
 static FILE_CTR: AtomicU64 = AtomicU64::new(0);
+/// policy files are given ordinary and unusual names: no extension, several dots, and the extension the adapter itself uses
+/// for its temporary file
+const FILE_EXTS: [&str; 5] = [".csv", ".tmp", "", ".v2.csv", ".csv.tmp"];
 
 pub fn parse_val(s: &str) -> Dynamic {
     if let Some(b) = s.strip_prefix("s:") { Dynamic::from(unesc(b)) }
@@ -222,7 +225,8 @@ impl EnfWorld {
             "file" => {
                 let dir = "/verif/target/tmp";
                 std::fs::create_dir_all(dir).ok();
-                let path = format!("{}/p{}-{}.csv", dir, std::process::id(), FILE_CTR.fetch_add(1, Ordering::SeqCst));
+                let n = FILE_CTR.fetch_add(1, Ordering::SeqCst);
+                let path = format!("{}/p{}-{}{}", dir, std::process::id(), n, FILE_EXTS[n as usize % FILE_EXTS.len()]);
                 std::fs::write(&path, unesc(text)).unwrap();
                 if let Some(old) = self.file_path.replace(path.clone()) { std::fs::remove_file(old).ok(); }
                 Box::new(FileAdapter::new(path))
@@ -556,7 +560,8 @@ pub fn c10_child(_conf: &str, path: &str, new_enc: &str, k: u64) -> i32 {
 pub fn fs_crash(rt: &tokio::runtime::Runtime, old: &[Vec<String>], new: &[Vec<String>], k: u64) -> String {
     let dir = "/verif/target/tmp";
     std::fs::create_dir_all(dir).ok();
-    let path = format!("{}/crash{}-{}.csv", dir, std::process::id(), FILE_CTR.fetch_add(1, Ordering::SeqCst));
+    let n = FILE_CTR.fetch_add(1, Ordering::SeqCst);
+    let path = format!("{}/crash{}-{}{}", dir, std::process::id(), n, FILE_EXTS[n as usize % FILE_EXTS.len()]);
     std::fs::write(&path, render_file(old)).unwrap();
     let exe = std::env::current_exe().unwrap();
     let st = std::process::Command::new(exe).args(["c10child", "-", &path, &enc_lists(new), &k.to_string()]).status();
@@ -571,6 +576,7 @@ pub fn fs_crash(rt: &tokio::runtime::Runtime, old: &[Vec<String>], new: &[Vec<St
     let raw = std::fs::read(&path).unwrap_or_default();
     std::fs::remove_file(&path).ok();
     std::fs::remove_file(format!("{}.tmp", path)).ok();
+    std::fs::remove_file(std::path::Path::new(&path).with_extension("tmp")).ok();
     match back {
         Err(_) => format!("corrupt:unreadable:{}", code),
         Ok(rules) => {
